@@ -574,7 +574,7 @@ func atomicCAS(m *Machine, c *frame, fn *ssa.Function, a []Value) Value {
 }
 
 func (m *Machine) sprintfConcat(f string, args []Value) (*sym.Term, bool) {
-	r := sym.Str("")
+	res := sym.Str("")
 	ai := 0
 	lit := ""
 	for i := 0; i < len(f); i++ {
@@ -607,12 +607,32 @@ func (m *Machine) sprintfConcat(f string, args []Value) (*sym.Term, bool) {
 			if !isI || itf.T == nil {
 				return nil, false
 			}
+			// Stringer / error operands are rendered by their own (interpreted) method
+			if _, isNat := itf.V.(*Native); !isNat {
+				var meth *ssa.Function
+				if f := m.findMethod(itf.T, "Error"); f != nil && f.Signature.Params().Len() == 0 {
+					meth = f
+				} else if f := m.findMethod(itf.T, "String"); f != nil && f.Signature.Params().Len() == 0 {
+					meth = f
+				}
+				if meth != nil {
+					if p, isP := itf.V.(*Value); isP && p == nil {
+						return nil, false
+					}
+					r, ok := m.call(m.cur, 0, meth, []Value{itf.V}).(*sym.Term)
+					if !ok {
+						return nil, false
+					}
+					piece = r
+					ai++
+					res = sym.Concat(sym.Concat(res, sym.Str(lit)), piece)
+					lit = ""
+					continue
+				}
+			}
 			b, isB := itf.T.Underlying().(*types.Basic)
 			t, isT := itf.V.(*sym.Term)
 			if !isB || !isT {
-				return nil, false
-			}
-			if ms := m.eng.prog.MethodSets.MethodSet(itf.T); ms.Lookup(nil, "String") != nil || ms.Lookup(nil, "Error") != nil {
 				return nil, false
 			}
 			switch {
@@ -631,13 +651,13 @@ func (m *Machine) sprintfConcat(f string, args []Value) (*sym.Term, bool) {
 			return nil, false
 		}
 		ai++
-		r = sym.Concat(sym.Concat(r, sym.Str(lit)), piece)
+		res = sym.Concat(sym.Concat(res, sym.Str(lit)), piece)
 		lit = ""
 	}
 	if ai != len(args) {
 		return nil, false
 	}
-	return sym.Concat(r, sym.Str(lit)), true
+	return sym.Concat(res, sym.Str(lit)), true
 }
 
 // ---- sync.Map as an engine map keyed by interface values
